@@ -336,7 +336,11 @@ impl State {
                         the_current_infix: None,
                         infix_format: InfixFormat::Std,
                     },
-                    infix_from_timestamp(&ts, self.config.use_utc, &InfixFormat::Std),
+                    self.collision_free_if_not_appending(infix_from_timestamp(
+                        &ts,
+                        self.config.use_utc,
+                        &InfixFormat::Std,
+                    )),
                 )
             }
             Naming::Timestamps => (
@@ -374,7 +378,11 @@ impl State {
                 } else {
                     let fmt = InfixFormat::custom(ts_fmt);
                     let ts = latest_timestamp_file(&self.config, !self.config.append, &fmt);
-                    let infix = infix_from_timestamp(&ts, self.config.use_utc, &fmt);
+                    let infix = self.collision_free_if_not_appending(infix_from_timestamp(
+                        &ts,
+                        self.config.use_utc,
+                        &fmt,
+                    ));
                     (
                         NamingState::Timestamps {
                             current_timestamp: ts,
@@ -440,6 +448,18 @@ impl State {
             write,
             path,
         ))
+    }
+
+    // With direct timestamp naming and without append, a start within the same second as
+    // an earlier file must not truncate that file.
+    fn collision_free_if_not_appending(&self, infix: String) -> String {
+        if self.config.append {
+            infix
+        } else {
+            self.config
+                .file_spec
+                .collision_free_infix_for_rotated_file(&infix)
+        }
     }
 
     pub fn config(&self) -> &FileLogWriterConfig {
